@@ -107,6 +107,9 @@ func (w *World) observe(i int, k *keyEntry, full bool, when string) string {
 				add("ASN1", pub.ASN1Bytes())
 				sig, err := k.priv.Sign(secec.RFC6979SHA256(), fixedDigest, nil)
 				parts = append(parts, fmt.Sprintf("Sig=%x/%v", sig, err != nil))
+				// the hedged nonce is a function of the key too
+				hs, herr := k.priv.Sign(zeroAux(), fixedDigest, nil)
+				parts = append(parts, fmt.Sprintf("SigHedged=%x/%v", hs, herr != nil))
 				ss, err := k.priv.ECDH(fixedPeer)
 				parts = append(parts, fmt.Sprintf("ECDH=%x/%v", ss, err != nil))
 				if pk, ok := k.priv.Public().(*secec.PublicKey); ok {
